@@ -224,3 +224,62 @@ def deep_origins(ctx, operand, depth=5, stop=None):
 def base(o):
     """the origin without the field path"""
     return Origin(o.kind, o.key, (), o.extra)
+
+
+# ---- file-system effects (canonical callee names; matched on `::`-boundaries) -------------------
+FS_WRITE_IN_PLACE = (
+    "tokio::fs::write::write", "std::fs::write", "tokio::fs::file::File::create", "std::fs::File::create",
+    "std::fs::File::create_new", "tokio::fs::file::File::create_new",
+    "tokio::fs::open_options::OpenOptions::open", "std::fs::OpenOptions::open",
+    "tokio::fs::copy::copy", "std::fs::copy",
+)
+FS_LINK = ("tokio::fs::symlink::symlink", "std::os::unix::fs::symlink", "tokio::fs::hard_link::hard_link",
+           "std::fs::hard_link")
+FS_RENAME = ("tokio::fs::rename::rename", "std::fs::rename")
+FS_REMOVE = ("tokio::fs::remove_file::remove_file", "std::fs::remove_file", "tokio::fs::remove_dir_all::remove_dir_all",
+             "std::fs::remove_dir_all", "tokio::fs::remove_dir::remove_dir", "std::fs::remove_dir")
+FS_MKDIR = ("tokio::fs::create_dir_all::create_dir_all", "std::fs::create_dir_all", "tokio::fs::create_dir::create_dir",
+            "std::fs::create_dir")
+FS_TEMP_NEW = ("tempfile::file::NamedTempFile::new_in", "tempfile::file::NamedTempFile::new",
+               "tempfile::Builder::tempfile_in", "tempfile::Builder::tempfile", "tempfile::tempfile_in")
+FS_PERSIST = ("tempfile::file::NamedTempFile::persist", "tempfile::file::NamedTempFile::persist_noclobber",
+              "tempfile::file::TempPath::persist", "tempfile::file::TempPath::persist_noclobber")
+FS_ALL_MUTATING = FS_WRITE_IN_PLACE + FS_LINK + FS_RENAME + FS_REMOVE + FS_MKDIR + FS_TEMP_NEW + FS_PERSIST
+
+
+def body_family(prog, root_path):
+    """a body together with all closures / coroutines nested in it"""
+    out = []
+    for p, b in prog.bodies.items():
+        if p == root_path or p.startswith(root_path + "::{closure"):
+            out.append(b)
+    return out
+
+
+def fs_effects(prog, root_path, table=FS_ALL_MUTATING):
+    """(body, bb, term, matched name) of every mutating file-system call in a function family"""
+    out = []
+    for b in body_family(prog, root_path):
+        for bb, t in b.calls():
+            for n in table:
+                if t.is_call_to(n):
+                    out.append((b, bb, t, n))
+                    break
+    return out
+
+
+def upvar_source(prog, closure_ctx, upvar_idx):
+    """origins (in the parent body) of captured variable `upvar_idx` of a closure"""
+    path = closure_ctx.body.path
+    parent_path = closure_ctx.body.parent
+    pctx = ctx_of(prog, parent_path)
+    if pctx is None:
+        return None, set()
+    for b in pctx.body.blocks:
+        if b.cleanup:
+            continue
+        for s in b.stmts:
+            if s.k == "assign" and s.rv.k == "agg" and s.rv.j.get("ak") in ("closure", "coroutine") \
+                    and s.rv.j.get("def") == path and upvar_idx < len(s.rv.ops):
+                return pctx, pctx.origins.of_operand(s.rv.ops[upvar_idx])
+    return pctx, set()
